@@ -245,6 +245,8 @@ typedef struct {
 	int  pass1_enomem_calls; // API calls of the first pass that returned NNG_ENOMEM
 	char enomem_call2[64];   // the second one: one failed allocation fails one call
 	long leak_blocks, leak_bytes;
+	long hook_viol; // invariant hooks of the library (nni_verif_fail) that fired in the child
+	char hook_key[96];
 	int  n_leaks;
 	struct {
 		size_t   size;
@@ -4362,6 +4364,12 @@ child_main(const c20_case *c)
 		nng_fini();
 	}
 	disarm();
+	// an invariant hook of the library that fired in this child: its V line
+	// dies with the child's output buffer, so it travels in the shared page
+	if (vf_violations() > 0) {
+		sh->hook_viol = vf_violations();
+		snprintf(sh->hook_key, sizeof(sh->hook_key), "%s", vf_last_violation_key());
+	}
 	sh->phase = PH_LEAK;
 	leak_check();
 	fd_balance();
@@ -5375,6 +5383,11 @@ judge(const c20_case *c, const char *casedesc)
 		    "%ld blocks / %ld bytes still allocated after nng_fini; e.g. %zu bytes from %s; failed site %s",
 		    sh->leak_blocks, sh->leak_bytes, sh->leaks[i].size, ldesc, sdesc);
 		viol(sfn, "leak", lfn, casedesc, detail);
+		bad++;
+	}
+	if (sh->hook_viol > 0) {
+		snprintf(detail, sizeof(detail), "an invariant hook of the library fired %ld time(s) in the child: %s; failed site %s", sh->hook_viol, sh->hook_key, sdesc);
+		viol(sfn, "hook", sh->hook_key, casedesc, detail);
 		bad++;
 	}
 	for (int i = 0; i < sh->n_aerr && i < 4; i++) {
